@@ -38,6 +38,62 @@ def run(chk):
     rule_simplify_cbuffers_eval(chk)
     import semmodel
     semmodel.rule_msl(chk, "C02.semantic")
+    rule_float_remainder(chk)
+
+
+def rule_float_remainder(chk):
+    """Metal defines `%` for integer operands only; the remainder of floating-point operands (HLSL's `%`: truncated
+    quotient, sign of the dividend) is metal::fmod. The Metal generate_expression walked on `L % R` for every scalar kind,
+    as scalar and as vector: integer operands give the operator, floating ones a call of fmod, operands in order."""
+    import interp as I
+    import exportmodel as XM
+    f = chk.facts
+    if not f.fn("generate_expression", MSL):
+        return
+    rt = XM.RoundTrip(f, MSL)
+    el = rt.el
+    n = 0
+    bad = None
+    for t in ("Int32", "UInt32", "Int323", "UInt322", "Float16", "Float163", "Float32", "Float322", "Float324"):
+        if t not in el.u.names:
+            continue
+        a, b = el.ety(t, 0, "Lvalue"), el.ety(t, 0, "Rvalue")
+        node = I.Enum("Expression", "IntrinsicOp", {"0": I.Enum("IntrinsicOp", "Modulus"), "1": [el.operand_node("L", a), el.operand_node("R", b)]})
+        r = rt.export(node, {"L": a, "R": b})
+        if r[0] == "unreadable":
+            chk.note("C02.remainder: the Metal generate_expression is not readable on a remainder (%s); not decided" % r[1][:80])
+            return
+        n += 1
+        floating = t.startswith("Float")
+        e = r[1] if r[0] == "Ok" else None
+        def ast_leaves(v, out):
+            # identifiers of the emitted syntax tree, left to right
+            if isinstance(v, I.Enum):
+                if v.variant == "Identifier" and v.adt == "Expression":
+                    ids = v.fields["0"].fields.get("identifiers")
+                    out.append("::".join(x.fields["node"] for x in ids) if isinstance(ids, list) else "?")
+                    return out
+                for k_ in sorted(v.fields):
+                    ast_leaves(v.fields[k_], out)
+            elif isinstance(v, (list, tuple)):
+                for x in v:
+                    ast_leaves(x, out)
+            return out
+        leaves = ast_leaves(e, []) if e is not None else None
+        is_op = isinstance(e, I.Enum) and e.variant == "BinaryOperation" and getattr(e.fields.get("0"), "variant", None) == "Modulus"
+        callee = None
+        if isinstance(e, I.Enum) and e.variant == "Call":
+            c = e.fields["0"]
+            c = c.fields.get("node") if isinstance(c, I.Enum) and c.adt == "Located" else c
+            ids = c.fields["0"].fields.get("identifiers") if isinstance(c, I.Enum) and c.variant == "Identifier" else None
+            callee = "::".join(x.fields["node"] for x in ids) if isinstance(ids, list) else None
+        okk = r[0] == "Ok" and ((is_op and not floating) or (floating and callee in ("metal::fmod", "fmod")))
+        if okk and leaves is not None and [x for x in leaves if x in ("L", "R")] != ["L", "R"]:
+            okk = False
+        if not okk and bad is None:
+            bad = "`L %% R` on %s operands is exported to Metal as %s; %s" % (t, ("the call %s(..)" % callee) if callee else ("the operator %" if is_op else str(r[:2])[:80]),
+                                                                           "Metal has no % for floating-point operands, the remainder is metal::fmod(L, R)" if floating else "integer operands take the operator")
+    chk.ob("C02.remainder/by-operand-kind", bad is None, bad or "%d operand kinds: integer remainders use %%, floating ones metal::fmod" % n, where(f.fn("generate_expression", MSL)), sample={"kinds": n})
 
 
 def rule_sibling_ops(chk):
